@@ -10,7 +10,7 @@ Require Import Nib.C20.SMapDef Nib.C20.Model Nib.C20.Eqdec Nib.C20.Spec Nib.C20.
     changed); and the imported state equals the original on every persistent collection except the
     explicit list of [Spec.exc] — the two booleans say whether the defect exceptions
     [ExRewardsIdStale] / [ExTfBankMetadataReset] are needed for this [c]. *)
-Theorem C20_app_roundtrip : forall c F env h t s, c_ep_val c = EpValNonneg -> wf_app F env s ->
+Theorem C20_app_roundtrip : forall c F env h t s, c_ep_val c = EpValNonneg -> c_ep_start c = EpStZeroOnly -> wf_app F env s ->
   exists g s',
     export_app env s = Some g /\
     init_app c F env (tf_bankmd (a_tf s)) h t g = Some s' /\
@@ -22,7 +22,7 @@ Print Assumptions C20_app_roundtrip.
 (** export (init (export s)) = export s, for every module but epochs, where it holds modulo the
     start height (what InitGenesis/AddEpochInfo does: CurrentEpochStartHeight := h; the start TIME is
     kept because a stored epoch never has the zero time). *)
-Theorem C20_export_roundtrip : forall c F env h t s, c_ep_val c = EpValNonneg -> wf_app F env s ->
+Theorem C20_export_roundtrip : forall c F env h t s, c_ep_val c = EpValNonneg -> c_ep_start c = EpStZeroOnly -> wf_app F env s ->
   exists g s' g', export_app env s = Some g /\ init_app c F env (tf_bankmd (a_tf s)) h t g = Some s' /\
                   export_app env s' = Some g' /\ gen_equiv h g g'.
 Proof. exact export_roundtrip. Qed.
@@ -89,6 +89,32 @@ Theorem C20_epochs_height_zero_invalid_refuted :
   init_epochs EpValNonneg 0 0%Z 3000%Z (export_epochs w') = Some w'.
 Proof. exact epochs_height_zero_invalid_refuted. Qed.
 Print Assumptions C20_epochs_height_zero_invalid_refuted.
+
+(** epochs START TIMES: for EVERY import time [t] (before, at or after a definition's scheduled start) and whether or not
+    the epoch has begun counting, export ∘ init keeps start_time — and every field but the start height — of every stored
+    definition (AddEpochInfo only fills in a ZERO start_time; rule [EpStZeroOnly], regenerated from its source) *)
+Theorem C20_epochs_init_keeps_start_time : forall empty h t s, wf_epochs empty s ->
+  exists s', init_epochs EpValNonneg empty h t (export_epochs s) = Some s' /\
+    forall k e, In (k, e) s ->
+      exists e', In (k, e') s' /\ ep_start e' = ep_start e /\ ep_started e' = ep_started e /\ ep_cur e' = ep_cur e /\
+                 ep_cstart e' = ep_cstart e /\ ep_dur e' = ep_dur e.
+Proof. exact epochs_init_keeps_start_time. Qed.
+Print Assumptions C20_epochs_init_keeps_start_time.
+
+(** the widened condition "… or not yet counting and start_time before the import block time": a future-dated definition
+    exported before its date round-trips when imported before / at its start, but comes back with start_time := import
+    time when the import happens after it — the second export differs *)
+Theorem C20_epochs_start_time_rewrite_refuted :
+  let sr := EpStZeroOrPastUnstarted in
+  wf_epochs 0 ep_sched_witness /\
+  init_epochs_r sr EpValNonneg 0 7%Z 1000%Z (export_epochs ep_sched_witness) = Some (map (rb 7%Z) ep_sched_witness) /\
+  init_epochs_r sr EpValNonneg 0 7%Z 5000%Z (export_epochs ep_sched_witness) = Some (map (rb 7%Z) ep_sched_witness) /\
+  (exists s', init_epochs_r sr EpValNonneg 0 7%Z 9000%Z (export_epochs ep_sched_witness) = Some s' /\
+              map (fun kv => ep_start (snd kv)) s' = [9000%Z] /\
+              export_epochs s' <> map (rebase_epoch 7%Z) (export_epochs ep_sched_witness)) /\
+  init_epochs EpValNonneg 0 7%Z 9000%Z (export_epochs ep_sched_witness) = Some (map (rb 7%Z) ep_sched_witness).
+Proof. exact epochs_start_time_rewrite_refuted. Qed.
+Print Assumptions C20_epochs_start_time_rewrite_refuted.
 
 (** Per module. *)
 Theorem C20_sudo_roundtrip : forall s g, export_sudo s = Some g -> export_sudo (init_sudo g) = Some g /\ init_sudo g = s.
